@@ -1124,10 +1124,10 @@ def run(tier, seed, replay=None):
     import dendropy.utility
     cases = list(probe_cases())
     if tier == "quick":
-        cases += [random_case(ctx.rng, 9, 8) for _ in range(700)]
-        cases += [random_case(ctx.rng, 30, 25) for _ in range(60)]
+        cases += [random_case(ctx.rng, 9, 8) for _ in range(550)]
+        cases += [random_case(ctx.rng, 30, 25) for _ in range(50)]
         small = list(small_scope_cases(3, 2, ctx.rng, per_state=None))
-        cases += ctx.rng.sample(small, 1200)
+        cases += ctx.rng.sample(small, 800)
     else:
         cases += [random_case(ctx.rng, 10, 10) for _ in range(4000)]
         cases += [random_case(ctx.rng, 30, 25) for _ in range(500)]
@@ -1144,9 +1144,10 @@ def run(tier, seed, replay=None):
     return ctx.finish(level="proof",
                       rule="op histories on the real library with arguments drawn from the live state (all flags toggled, "
                            "rooting None/True/False, trees with polytomies/unifurcations/missing lengths/missing taxa); "
-                           "quick: 700 histories <=8 ops on <=9 leaves + 60 histories <=25 ops on <=30 leaves + 1200 sampled "
-                           "depth-2 histories from every shape <=3 leaves; thorough: 4000+500 random histories and "
-                           "every depth-2 history over the per-state op alphabet from every shape <=4 leaves, sampled "
-                           "alphabets for 5 leaves and depth 3 on <=3 leaves; pointer dump, rooting flag and exception class "
+                           "quick: 550 histories <=8 ops on <=9 leaves + 50 histories <=25 ops on <=30 leaves + 800 sampled "
+                           "depth-2 histories from every shape <=3 leaves; thorough: 4000+500 random histories, "
+                           "every depth-2 history over the per-state op alphabet from every shape <=4 leaves, depth 2 with "
+                           "sampled alphabets (9 per state) for 5 leaves and depth 3 (11 per state) on <=3 leaves; a third of "
+                           "the random histories also re-seed at leaves (F19); pointer dump, rooting flag and exception class "
                            "compared with the model after every step; non-trivial = >=2 executed ops on a tree with >=4 nodes; "
                            "distinct by full case content")
